@@ -26,14 +26,14 @@
    Seq(0..255); Micheline expressions (parameter values, scripts, constants, ticket
    contents and types) are opaque byte strings here: their format is property C05.
 
-   State machine: Init picks a group g; the encoder appends the branch, then for each
-   content the tag and one field per step; then the decoder reads the produced bytes back
-   with a read pointer, one field per step.  Leg A: the stepwise bytes equal the
+   State machine: Init picks a group g; the encoder appends the branch, then one
+   content per step (tag, then the fields in schema order); then the decoder reads the produced bytes back
+   with a read pointer, one field per step.  Leg A: the bytes built step by step equal the
    declarative F(g), and the decoder returns g (so F is injective). *)
 EXTENDS Integers, Sequences, FiniteSets, TLC
 BI == INSTANCE BigInt
 
-CONSTANTS Family,      \* which bounded universe: "hdr", "tx", "misc", "mix", "vec"
+CONSTANTS Families,    \* which bounded universes: subset of {"hdr", "tx", "misc", "mix", "vec"}
           MaxLen,      \* "mix": groups of 2..MaxLen contents
           HdrIdx,      \* "hdr": indices into IntTab tried for fee/counter/gas_limit/storage_limit
           AmtIdx,      \* indices into IntTab tried for amounts / balances
@@ -41,12 +41,12 @@ CONSTANTS Family,      \* which bounded universe: "hdr", "tx", "misc", "mix", "v
           VecGroups    \* "vec": groups supplied by a generated wrapper (recorded mainnet operations)
 
 VARIABLES g,                       \* the input group <<branch, contents>>
-          pc, ci, fi,              \* control, content index, field index
+          pc, ci,                  \* control, content index
           parts,                   \* parts[c] = <<tag bytes, field 1 bytes, ..>> of content c (export)
           buf,                     \* bytes produced so far / the bytes being decoded
           ptr, todo, acc,          \* decoder: read pointer (1-based), fields still to read, fields read
           dbranch, dcontents, err
-vars == <<g, pc, ci, fi, parts, buf, ptr, todo, acc, dbranch, dcontents, err>>
+vars == <<g, pc, ci, parts, buf, ptr, todo, acc, dbranch, dcontents, err>>
 
 \* ------------------------------------------------------------------ the schema
 ManagerHdr == <<"pkh", "N", "N", "N", "N">>
@@ -112,8 +112,8 @@ Enc(ft, v) ==
     [] ft = "msgs"        -> Dyn(Cat([k \in 1..Len(v) |-> Dyn(v[k])]))
     [] ft = "h20"         -> v
     [] ft = "h32"         -> v
-EncContent(c) == <<Tag(c[1])>> \o Cat([k \in 1..Len(Schema(c[1])) |-> Enc(Schema(c[1])[k], c[k + 1])])
-F(gr) == gr[1] \o Cat([k \in 1..Len(gr[2]) |-> EncContent(gr[2][k])])
+FContent(c) == <<Tag(c[1])>> \o Cat([k \in 1..Len(Schema(c[1])) |-> Enc(Schema(c[1])[k], c[k + 1])])
+F(gr) == gr[1] \o Cat([k \in 1..Len(gr[2]) |-> FContent(gr[2][k])])
 
 \* ------------------------------------------------------------------ well-formedness of a group
 WfField(ft, v) ==
@@ -288,41 +288,36 @@ MixPool == {
    <<"smart_rollup_add_messages">> \o H1 \o <<<<Msg1, Msg2>>>>,
    <<"smart_rollup_execute_outbox_message">> \o H2 \o <<HA, C32, Ramp(11, 40)>> }
 Singles(brs, cs) == {<<br, <<c>>>> : br \in brs, c \in cs}
-Groups ==
-  CASE Family = "hdr"  -> Singles({BR1}, HdrContents)
-    [] Family = "tx"   -> Singles({BR1}, TxContents)
-    [] Family = "misc" -> Singles({BR1, BR2}, MiscContents)
-    [] Family = "mix"  -> UNION {{<<BR1, s>> : s \in [1..n -> MixPool]} : n \in 2..MaxLen}
-    [] Family = "vec"  -> VecGroups
+GroupsOf(family) ==
+  CASE family = "hdr"  -> Singles({BR1}, HdrContents)
+    [] family = "tx"   -> Singles({BR1}, TxContents)
+    [] family = "misc" -> Singles({BR1, BR2}, MiscContents)
+    [] family = "mix"  -> UNION {{<<BR1, s>> : s \in [1..n -> MixPool]} : n \in 2..MaxLen}
+    [] family = "vec"  -> VecGroups
+Groups == UNION {GroupsOf(f) : f \in Families}
 
 \* ------------------------------------------------------------------ the machine
 Init == /\ g \in Groups
-        /\ pc = "enc-branch" /\ ci = 0 /\ fi = 0 /\ parts = <<>> /\ buf = <<>>
+        /\ pc = "enc-branch" /\ ci = 0 /\ parts = <<>> /\ buf = <<>>
         /\ ptr = 0 /\ todo = <<>> /\ acc = <<>> /\ dbranch = <<>> /\ dcontents = <<>> /\ err = <<>>
 
 EncBranch == /\ pc = "enc-branch"
-             /\ buf' = g[1] /\ ci' = 1 /\ pc' = "enc-tag"
-             /\ UNCHANGED <<g, fi, parts, ptr, todo, acc, dbranch, dcontents, err>>
-EncTag == /\ pc = "enc-tag"
-          /\ IF ci > Len(g[2])
-             THEN pc' = "dec-branch" /\ UNCHANGED <<buf, parts, fi>>
-             ELSE LET t == <<Tag(g[2][ci][1])>> IN
-                  buf' = buf \o t /\ parts' = Append(parts, <<t>>) /\ fi' = 1 /\ pc' = "enc-field"
-          /\ UNCHANGED <<g, ci, ptr, todo, acc, dbranch, dcontents, err>>
-EncField == /\ pc = "enc-field"
-            /\ LET c == g[2][ci]
-                   sch == Schema(c[1]) IN
-               IF fi > Len(sch)
-               THEN ci' = ci + 1 /\ pc' = "enc-tag" /\ UNCHANGED <<buf, parts, fi>>
-               ELSE LET e == Enc(sch[fi], c[fi + 1]) IN
-                    buf' = buf \o e /\ parts' = [parts EXCEPT ![ci] = Append(@, e)] /\ fi' = fi + 1 /\ UNCHANGED <<ci, pc>>
-            /\ UNCHANGED <<g, ptr, todo, acc, dbranch, dcontents, err>>
+             /\ buf' = g[1] /\ ci' = 1 /\ pc' = "enc-content"
+             /\ UNCHANGED <<g, parts, ptr, todo, acc, dbranch, dcontents, err>>
+EncContent == /\ pc = "enc-content"            \* one content per step: tag, then its fields in schema order
+              /\ IF ci > Len(g[2])
+                 THEN pc' = "dec-branch" /\ UNCHANGED <<buf, parts, ci>>
+                 ELSE LET c == g[2][ci]
+                          sch == Schema(c[1])
+                          p == <<<<Tag(c[1])>>>> \o [k \in 1..Len(sch) |-> Enc(sch[k], c[k + 1])] IN
+                      buf' = buf \o Cat(p) /\ parts' = Append(parts, p) /\ ci' = ci + 1 /\ UNCHANGED pc
+              /\ UNCHANGED <<g, ptr, todo, acc, dbranch, dcontents, err>>
 
 Fail(why) == pc' = "error" /\ err' = <<why, ptr>> /\ UNCHANGED <<ptr, todo, acc, dbranch, dcontents>>
 DecBranch == /\ pc = "dec-branch"
              /\ IF ~Has(buf, 1, 32) THEN Fail("short-branch")
                 ELSE dbranch' = Take(buf, 1, 32) /\ ptr' = 33 /\ pc' = "dec-tag" /\ UNCHANGED <<todo, acc, dcontents, err>>
-             /\ UNCHANGED <<g, ci, fi, parts, buf>>
+             /\ UNCHANGED <<g, ci, parts, buf>>
 DecTag == /\ pc = "dec-tag"
           /\ IF ptr > Len(buf)
              THEN IF dcontents = <<>> THEN Fail("no-contents")
@@ -331,20 +326,20 @@ DecTag == /\ pc = "dec-tag"
              ELSE LET kind == KindOfTag(buf[ptr]) IN
                   IF kind = "?" THEN Fail("unknown-tag")
                   ELSE todo' = Schema(kind) /\ acc' = <<kind>> /\ ptr' = ptr + 1 /\ pc' = "dec-field" /\ UNCHANGED <<dbranch, dcontents, err>>
-          /\ UNCHANGED <<g, ci, fi, parts, buf>>
+          /\ UNCHANGED <<g, ci, parts, buf>>
 DecField == /\ pc = "dec-field"
             /\ IF todo = <<>>
                THEN dcontents' = Append(dcontents, acc) /\ acc' = <<>> /\ pc' = "dec-tag" /\ UNCHANGED <<ptr, todo, dbranch, err>>
                ELSE LET r == Read(Head(todo), buf, ptr) IN
                     IF r[1] = "err" THEN Fail(r[2])
                     ELSE acc' = Append(acc, r[2]) /\ ptr' = r[3] /\ todo' = Tail(todo) /\ UNCHANGED <<pc, dbranch, dcontents, err>>
-            /\ UNCHANGED <<g, ci, fi, parts, buf>>
-Next == EncBranch \/ EncTag \/ EncField \/ DecBranch \/ DecTag \/ DecField
+            /\ UNCHANGED <<g, ci, parts, buf>>
+Next == EncBranch \/ EncContent \/ DecBranch \/ DecTag \/ DecField
 Spec == Init /\ [][Next]_vars
 
 \* ------------------------------------------------------------------ properties (Leg A)
-UniverseWellFormed == WfGroup(g)
-\* the bytes built field by field are the declarative encoding, and they are the concatenation of the exported parts
+UniverseWellFormed == pc = "enc-branch" => WfGroup(g)
+\* the bytes built step by step are the declarative encoding, and they are the concatenation of the exported parts
 EncIsF == pc = "dec-branch" =>            \* (buf is not modified afterwards)
             /\ buf = F(g)
             /\ buf = g[1] \o Cat([k \in 1..Len(parts) |-> Cat(parts[k])])
